@@ -27,7 +27,7 @@ def q(tier, quick, thorough):
 
 
 def recipe(c: Check):
-    c.build(["Properties/C19.vo", "Corr/C19.vo"], harness=["c19"], units=["c19reload"])
+    c.build(["Properties/C19.vo", "Corr/C19.vo"], harness=["c19"], units=["c19reload", "c19routes"])
     c.obligations("C19")
     st = c.run_driver("health", q(c.tier, 260, 0), shards=q(c.tier, 4, 16), timeout=q(c.tier, 300, 1500))
     if st:
@@ -94,7 +94,10 @@ def recipe(c: Check):
              "client statuses afterwards; service path (Service.UpdateAllConfigurer with proxies AND visitors): reload to the empty "
              "visitor set, from empty, replace all, proxies to empty and back, outage + reload while the client retries + re-login, "
              "identical reload — tables of the current Control compared with Model.ClientSvc, removed visitors' bind ports free, server "
-             "registrations = configured set; health-checked proxies with unset optional fields reloaded identically; a failing scenario is repeated with 3x and 10x settling time and reported only if it fails "
+             "registrations = configured set; health-checked proxies with unset optional fields reloaded identically; http proxies (frps with vhostHTTPPort + "
+             "subDomainHost) with subdomain / 1-2 custom domains / both x 0..3 locations through reload cycles (all changed, other "
+             "location lists, removed, re-added, identical) and a health cycle (backend up, down, up): after every step the server's "
+             "http route table = routes of the configured set, registered names = configured, all running; a failing scenario is repeated with 3x and 10x settling time and reported only if it fails "
              "every time",
         assumptions=["probe outcome, clock and the result of proxy.Run()/visitor.Run() are operation arguments (oracles)",
                      "failedTimes is a uint64 in Go and an unbounded Z in the model (2^63 consecutive failures are out of reach)"])
